@@ -144,7 +144,12 @@ def _write_ninja():
             for s in srcs:
                 o = os.path.join(DRV, name + "." + os.path.basename(s) + ".o")
                 rule = "cc" if s.endswith(".c") else "cxx"
-                out.append(f"build {o}: {rule} {s} | {hdrs_all}\n  flags = {d['flags']}")
+                # only the sources that include s4u_core.hpp pick up extension headers through __has_include
+                try:
+                    uses_core = "s4u_core.hpp" in open(s, errors="replace").read()
+                except OSError:
+                    uses_core = False
+                out.append(f"build {o}: {rule} {s} | {hdrs_all if uses_core else ''}\n  flags = {d['flags']}")
                 objs.append(o)
             lrule = "link" if d["kind"] == "cxx" else "linkc"
             out.append(f"build {exe}: {lrule} {' '.join(objs)} | {lib}\n  libs = {d['libs']}")
